@@ -1,5 +1,6 @@
 SPECIFICATION Spec
 CONSTANTS
+  RecursiveAddsBias = TRUE
   Inputs = {1, 2}
   Biases = {3, 4}
   Hidden = {7, 8}
